@@ -8,7 +8,7 @@ W=/tmp/mut/$name
 rm -rf "$W"; mkdir -p /tmp/mut
 git -C /repo worktree prune
 git -C /repo worktree add -q --detach "$W" HEAD || exit 3
-if ! git -C "$W" apply "$patch"; then echo "RESULT $name patch-does-not-apply"; git -C /repo worktree remove --force "$W"; exit 3; fi
+if ! git -C "$W" apply "$patch" 2>/dev/null && ! git -C "$W" apply -3 "$patch"; then echo "RESULT $name patch-does-not-apply"; git -C /repo worktree remove --force "$W"; exit 3; fi
 ( cd "$W/jmespath" && cargo test --offline --no-fail-fast >"$W/.test.log" 2>&1 )
 tests=$(grep -E "^test result" "$W/.test.log" | tr '\n' ' ')
 if grep -qE "^test result: FAILED|error\[|error:" "$W/.test.log"; then echo "RESULT $name SUITE-FAILS-OR-DOES-NOT-COMPILE :: $tests"; fi
